@@ -191,7 +191,11 @@ func (w *fsWriter) writeBlob(data []byte, key Key, n uint64) error {
 			w.m.Volume.Blobs.IncDuplicate("write")
 		}
 
-		return nil
+		// refresh the modification time of the blob we now depend on: a purge considers any blob
+		// older than its index and unknown to it as garbage. When the store cannot do that, write the blob again.
+		if err := w.store.Touch(ctx, w.pather(key)); err == nil {
+			return nil
+		}
 
 	case found && overwrite:
 		// the blob has been found, but was found corrupted
